@@ -8,6 +8,29 @@ use std::io::{Read, Write};
 use std::pin::Pin;
 use std::task::{Context, Poll};
 
+/// Splits `data` into lines at CRLF, LF, and CR, like an `EventSource` parser does.
+///
+/// Unlike [`str::lines`], this treats a lone CR as a line end and keeps a trailing empty line.
+/// So `""` has one line and `"a\n"` has two.
+fn data_lines(data: &str) -> impl Iterator<Item = &str> {
+    let mut opt_rest = Some(data);
+    std::iter::from_fn(move || {
+        let rest = opt_rest?;
+        if let Some(n) = rest.find(|c| c == '\r' || c == '\n') {
+            let next = if rest[n..].starts_with("\r\n") {
+                n + 2
+            } else {
+                n + 1
+            };
+            opt_rest = Some(&rest[next..]);
+            Some(&rest[..n])
+        } else {
+            opt_rest = None;
+            Some(rest)
+        }
+    })
+}
+
 #[derive(Clone, Debug, Eq, Hash, Ord, PartialOrd, PartialEq)]
 pub enum Event {
     /// Message(data)
@@ -43,7 +66,7 @@ impl Event {
                 data
             }
         };
-        for line in data.lines() {
+        for line in data_lines(data) {
             write!(buf, "data: {line}\n")?;
         }
         Ok(original_buf_len - buf.len())
@@ -58,7 +81,7 @@ impl Event {
                 data
             }
         };
-        for line in data.lines() {
+        for line in data_lines(data) {
             write!(buf, "data: {line}\n").unwrap();
         }
     }
